@@ -216,7 +216,12 @@ def native_check(info, args: dict, stub_self=None):
                 expected[nm[7:]] = bool(call_clause(clause_fn(info, nm), vals))
             except Exception as e:
                 return {"ok": True, "outcome": "clause-error", "detail": f"{nm}: {e!r}"}
-    call_args = copy.deepcopy(vals)
+    import inspect
+    try:
+        fparams = set(inspect.signature(fn).parameters)
+    except (TypeError, ValueError):
+        fparams = set(vals)
+    call_args = copy.deepcopy({k: v for k, v in vals.items() if k in fparams})  # ghost (forall) parameters are not passed
     try:
         result = fn(**call_args)
         outcome = "return"
